@@ -369,6 +369,33 @@ fn after_literals(b: &[u8]) -> Option<usize> {
     }
 }
 
+/// compress_to_vec at level Fastest, then both decoders
+fn builtin_roundtrip(data: &[u8]) -> (Option<String>, Vec<u8>) {
+    let d2 = data.to_vec();
+    match std::panic::catch_unwind(move || ruzstd::encoding::compress_to_vec(&d2[..], CompressionLevel::Fastest)) {
+        Err(p) => (Some(format!("compress_to_vec panicked: {}", panic_msg(p))), vec![]),
+        Ok(out) => {
+            let r = zstd::decode_all(&out[..]);
+            let o = std::panic::catch_unwind(|| {
+                let mut d = FrameDecoder::new();
+                let mut v = Vec::with_capacity(data.len() + 16);
+                d.decode_all_to_vec(&out, &mut v).map(|_| v).map_err(|e| e.to_string())
+            })
+            .unwrap_or_else(|p| Err(format!("panic: {}", panic_msg(p))));
+            let ref_ok = r.as_ref().map(|v| v == data).unwrap_or(false);
+            let our_ok = o.as_ref().map(|v| v == data).unwrap_or(false);
+            let verdict = if ref_ok && our_ok {
+                None
+            } else {
+                Some(format!("the frame of the built-in compressor does not decode to the input: libzstd {} ruzstd {}",
+                    if ref_ok { "ok".into() } else { r.err().map(|e| e.to_string()).unwrap_or("wrong bytes".into()) },
+                    if our_ok { "ok".into() } else { o.err().unwrap_or("wrong bytes".into()) }))
+            };
+            (verdict, out)
+        }
+    }
+}
+
 /// seqhist <seed> <hist_classes.ndjson> <rows.ndjson> <report.json> [quick|thorough]
 /// One valid parse per code-histogram class of ParseClasses.tla (HistRows): the field under test gets exactly the class's
 /// histogram of codes; the frame must decode with both decoders, and the table descriptions the compressor wrote for the
@@ -401,6 +428,8 @@ pub fn seqhist(args: &[String]) {
     let mut samples: Vec<Value> = vec![];
     let hist: Vec<u8> = (0..2 * BLOCK).map(|_| rng.gen()).collect();
     let quick = args.get(4).map(|t| t == "quick").unwrap_or(false);
+    // "builtin": the same planted data (with matches long enough for the built-in match finder) through compress_to_vec
+    let builtin = args.get(5).map(|t| t == "builtin").unwrap_or(false);
     let mut li = 0usize;
     for line in f.lines() {
         li += 1;
@@ -416,8 +445,8 @@ pub fn seqhist(args: &[String]) {
         let mut used = 0usize;
         let (mut cl, mut co, mut cm) = (std::collections::BTreeSet::new(), std::collections::BTreeSet::new(), std::collections::BTreeSet::new());
         for code in &codes {
-            let llc = if field == "ll" { *code } else { rng.gen_range(0..4) };
-            let mlc = if field == "ml" { *code } else { rng.gen_range(0..4) };
+            let llc = if field == "ll" { *code } else if builtin { rng.gen_range(20..25) } else { rng.gen_range(0..4) };
+            let mlc = if field == "ml" { *code } else if builtin { rng.gen_range(13..20) } else { rng.gen_range(0..4) };
             let ofc = if field == "of" { *code } else { rng.gen_range(2..5) };
             let ll = (ll_first[llc].0 + rng.gen_range(0..ll_first[llc].1)) as usize;
             let ml = (ml_first[mlc].0 + rng.gen_range(0..ml_first[mlc].1)) as usize;
@@ -427,6 +456,11 @@ pub fn seqhist(args: &[String]) {
             cl.insert(llc);
             co.insert(ofc);
             cm.insert(mlc);
+        }
+        if builtin && field == "of" && !plan.is_empty() && used + 70_000 < BLOCK {
+            // the built-in match finder reaches far offsets only inside the block: open it with 66 000 literals
+            plan[0].0 += 66_000;
+            used += 66_000;
         }
         if used > BLOCK {
             skipped += 1;
@@ -438,7 +472,20 @@ pub fn seqhist(args: &[String]) {
         let block = synth(&hist, &plan, tail, &alphabet, &mut rng);
         let mut data = hist.clone();
         data.extend_from_slice(&block);
-        let (e, frame) = roundtrip_frame(&data, BLOCK, vec![vec![], vec![], plan.clone()], 1 << 20);
+        let (e, frame) = if builtin { builtin_roundtrip(&data) } else { roundtrip_frame(&data, BLOCK, vec![vec![], vec![], plan.clone()], 1 << 20) };
+        if builtin && field == "of" && c["unclamped"].as_u64().unwrap() > 8 && std::env::var("VH_DEBUG").is_ok() {
+            ruzstd::verif::take();
+            ruzstd::verif::set_mask(ruzstd::verif::SEQ);
+            let mut v = Vec::with_capacity(data.len() + 16);
+            let _ = FrameDecoder::new().decode_all_to_vec(&frame, &mut v);
+            let evs = ruzstd::verif::take();
+            ruzstd::verif::set_mask(0);
+            let mut hh = vec![0usize; 20];
+            for e in evs.iter().filter(|e| e.kind == "seq") {
+                hh[(63 - (e.args[3] + 3).leading_zeros()) as usize] += 1;
+            }
+            eprintln!("planned {:?}\nfound   {:?}", h, hh);
+        }
         if let Some(e) = e {
             bad += 1;
             if mism.len() < 12 {
@@ -464,6 +511,9 @@ pub fn seqhist(args: &[String]) {
                         // every class is judged by the two decoders; TLC reads the descriptions of the classes that reach the
                         // clamp and (quick tier) of every 12th other class
                         let maxlog = if field == "of" { 8 } else { 9 };
+                        if builtin {
+                            continue;
+                        }
                         if quick && c["unclamped"].as_u64().unwrap() <= maxlog && li % 12 != 0 {
                             continue;
                         }
